@@ -58,7 +58,7 @@ func c10Append(what string, prefix, prefixCopy, got, want []byte) error {
 	}
 	if !bytes.Equal(got[len(prefixCopy):], want) {
 		i := firstDiff(got[len(prefixCopy):], want)
-		return fmt.Errorf("%s: output differs from the expected value at byte %d of %d: got %x want %x", what, i, len(want), ev.Hex(got[len(prefixCopy):]), ev.Hex(want))
+		return fmt.Errorf("%s: output differs from the expected value at byte %d of %d: got %s want %s", what, i, len(want), ev.Hex(got[len(prefixCopy):]), ev.Hex(want))
 	}
 	if !bytes.Equal(prefix, prefixCopy) {
 		return fmt.Errorf("%s: the prefix bytes of out were modified", what)
@@ -451,6 +451,96 @@ func TestC10(t *testing.T) {
 			c.Sample(map[string]any{"fn": fn, "len": n, "classes": sub, "msg": ev.Hex(msg)})
 		}
 	})
+
+	// Directed table: every message length across the first-block split (and,
+	// in the thorough tier, across many Salsa20 blocks) with fixed keys, for
+	// each function; the expensive X25519 reference values are computed once.
+	var skA, skB, esk, key [32]byte
+	var nonce [24]byte
+	for i := 0; i < 32; i++ {
+		skA[i], skB[i], esk[i], key[i] = byte(7*i+1), byte(11*i+2), byte(13*i+3), byte(17*i+4)
+	}
+	for i := range nonce {
+		nonce[i] = byte(19*i + 5)
+	}
+	pkA, pkB, epk := refnacl.ScalarBaseMult(skA), refnacl.ScalarBaseMult(skB), refnacl.ScalarBaseMult(esk)
+	shared := refnacl.BoxBeforeNM(pkB, skA)
+	sealShared := refnacl.BoxBeforeNM(pkB, esk)
+	sealNonce := refnacl.SealNonce(epk, pkB)
+	edPriv := ed25519.NewKeyFromSeed(key[:])
+	var sPriv [64]byte
+	var sPub [32]byte
+	copy(sPriv[:], edPriv)
+	copy(sPub[:], edPriv[32:])
+	maxLen := ev.Scale(100, 700)
+	fail := func(format string, args ...any) {
+		what := fmt.Sprintf(format, args...)
+		c.Violation(what, "")
+		t.Fatalf("VF-VIOLATION: property=C10 %s", what)
+	}
+	ran := 0
+	for l := 0; l <= maxLen; l++ {
+		if !ev.Mine(l) {
+			continue
+		}
+		msg := make([]byte, l)
+		for i := range msg {
+			msg[i] = byte(i*29 + l)
+		}
+		// secretbox
+		want := refnacl.SecretboxSeal(msg, nonce, key)
+		if clibnacl.Available && !bytes.Equal(clibnacl.SecretboxEasy(msg, nonce, key), want) {
+			c.Inconclusive("table: libsodium and reference secretbox disagree")
+			t.Fatal("VF-INCONCLUSIVE: table: libsodium and reference secretbox disagree")
+		}
+		if got := secretbox.Seal(nil, msg, &nonce, &key); !bytes.Equal(got, want) {
+			fail("table: secretbox.Seal(len=%d) differs from crypto_secretbox_easy at byte %d", l, firstDiff(got, want))
+		}
+		if m, ok := secretbox.Open(nil, want, &nonce, &key); !ok || !bytes.Equal(m, msg) {
+			fail("table: secretbox.Open(len=%d) rejected or mis-decrypted a valid box", l)
+		}
+		// box, both directions
+		want = refnacl.SecretboxSeal(msg, nonce, shared)
+		if got := box.Seal(nil, msg, &nonce, &pkB, &skA); !bytes.Equal(got, want) {
+			fail("table: box.Seal(len=%d) differs from crypto_box_easy at byte %d", l, firstDiff(got, want))
+		}
+		if m, ok := box.Open(nil, want, &nonce, &pkA, &skB); !ok || !bytes.Equal(m, msg) {
+			fail("table: box.Open(len=%d) rejected or mis-decrypted a valid box", l)
+		}
+		// sealed box
+		want = append(append([]byte{}, epk[:]...), refnacl.SecretboxSeal(msg, sealNonce, sealShared)...)
+		if clibnacl.Available && !bytes.Equal(clibnacl.BoxSealDet(msg, pkB, esk), want) {
+			c.Inconclusive("table: libsodium and reference sealed box disagree")
+			t.Fatal("VF-INCONCLUSIVE: table: libsodium and reference sealed box disagree")
+		}
+		got, err := box.SealAnonymous(nil, msg, &pkB, &fixedReader{append([]byte{}, esk[:]...)})
+		if err != nil || !bytes.Equal(got, want) {
+			fail("table: box.SealAnonymous(len=%d) err=%v differs from crypto_box_seal at byte %d", l, err, firstDiff(got, want))
+		}
+		if m, ok := box.OpenAnonymous(nil, want, &pkB, &skB); !ok || !bytes.Equal(m, msg) {
+			fail("table: box.OpenAnonymous(len=%d) rejected or mis-decrypted a valid sealed box", l)
+		}
+		// sign, auth
+		want = append(ed25519.Sign(edPriv, msg), msg...)
+		if got := sign.Sign(nil, msg, &sPriv); !bytes.Equal(got, want) {
+			fail("table: sign.Sign(len=%d) differs from crypto_sign", l)
+		}
+		if m, ok := sign.Open(nil, want, &sPub); !ok || !bytes.Equal(m, msg) {
+			fail("table: sign.Open(len=%d) rejected a valid signed message", l)
+		}
+		tag := refnacl.Auth(msg, key)
+		if got := auth.Sum(msg, &key); *got != tag || !auth.Verify(tag[:], msg, &key) {
+			fail("table: auth.Sum/Verify(len=%d) differ from crypto_auth", l)
+		}
+		mc := "table:m<=32"
+		if l > 32 {
+			mc = "table:m>32"
+		}
+		c.Case(true, fmt.Sprintf("table|%d", l), mc)
+		c.Evals(8)
+		ran++
+	}
+	c.Exhaustive(fmt.Sprintf("every message length 0..%d x {secretbox, box, sealed box, sign, auth} with fixed keys", maxLen), maxLen+1)
 }
 
 func splitBar(s string) []string {
